@@ -2297,6 +2297,10 @@ static int factored_basis_is_current (
 
 	if (!p->basis || !lp || lp->basisid == -1 || !lp->baz || !lp->vstat || !lp->f)
 		return 0;
+	/* an edit of the matrix or a loaded basis leaves the old factorization (and
+	 * possibly pointers into reallocated matrix arrays) behind */
+	if (!p->factorok)
+		return 0;
 	if (lp->nrows != qslp->nrows || lp->ncols != qslp->ncols ||
 			lp->f->dim != qslp->nrows ||
 			p->basis->nstruct != qslp->nstruct || p->basis->nrows != qslp->nrows)
